@@ -57,17 +57,41 @@ def api(name):
     return deco
 
 
+HARMLESS_KW = {"dtype", "copy", "out", "file", "end", "sep", "flush", "order", "axis", "ddof", "keepdims", "subok"}
+
+
+def _kw_guard(label, f):
+    """a model that never looks at its keyword arguments must not silently ignore one that changes the result (enumerate(start=1), round(ndigits=2),
+    max(default=...)): such a call is a construct the engine does not model -- undecided, never a wrong answer"""
+    import inspect
+    try:
+        reads_kwargs = "kwargs" in inspect.getsource(f).split(":", 1)[1]
+    except Exception:  # noqa
+        reads_kwargs = True
+    if reads_kwargs:
+        return f
+
+    def g(interp, args, kwargs, node, frame):
+        extra = [k for k in kwargs if k not in HARMLESS_KW]
+        if extra:
+            raise Unsupported(f"keyword argument(s) {extra} of {label} are not modelled", node)
+        return f(interp, args, kwargs, node, frame)
+    g.__name__ = getattr(f, "__name__", "model")
+    return g
+
+
 def builtin(name):
     def deco(f):
-        BUILTINS[name] = ApiFn(name, f)
+        BUILTINS[name] = ApiFn(name, _kw_guard(name, f))
         return f
     return deco
 
 
 def lib(*names):
     def deco(f):
+        g = _kw_guard(names[0], f)
         for n in names:
-            LIB[n] = f
+            LIB[n] = g
         return f
     return deco
 
@@ -584,7 +608,10 @@ def _enumerate(interp, args, kwargs, node, frame):
     if isinstance(v, dict):
         v = list(v.keys())
     if isinstance(v, (list, tuple, range, str)):
-        return list(enumerate(v, *args[1:]))
+        start = kwargs.get("start", args[1] if len(args) > 1 else 0)
+        if not isinstance(start, int) or isinstance(start, bool):
+            raise Unsupported("enumerate with a symbolic start", node)
+        return list(enumerate(v, start))
     raise Unsupported(f"enumerate over {type(v).__name__}", node)
 
 
@@ -1034,18 +1061,36 @@ def _np_shape(interp, args, kwargs, node, frame):
     raise Unsupported("np.shape of a non-vector", node)
 
 
-@lib("numpy.sum", "numpy.mean", "numpy.median", "numpy.nansum", "numpy.nanmean")
-def _np_agg(interp, args, kwargs, node, frame):
-    use(interp, "np.agg")
+def _np_agg_of(kind):
+    def _np_agg(interp, args, kwargs, node, frame):
+        use(interp, "np.agg")
+        v = args[0]
+        if isinstance(v, SVec):
+            return interp.run.fresh_real("agg")
+        if isinstance(v, (list, tuple)) and (kind == "sum" or (kind == "mean" and len(v) > 0)):
+            out = 0
+            for x in v:
+                out = interp.binop(ast.Add(), out, x, node, frame)
+            if kind == "mean":
+                out = interp.binop(ast.Div(), out, len(v), node, frame)
+            return out
+        raise Unsupported(f"np.{kind} of this value", node)
+    return _np_agg
+
+
+for _k, _names in (("sum", ("numpy.sum", "numpy.nansum")), ("mean", ("numpy.mean", "numpy.nanmean")), ("median", ("numpy.median",))):
+    for _n in _names:
+        LIB[_n] = _np_agg_of(_k)
+
+
+@lib("numpy.square")
+def _np_square(interp, args, kwargs, node, frame):
     v = args[0]
     if isinstance(v, SVec):
-        return interp.run.fresh_real("agg")
-    if isinstance(v, (list, tuple)) and node is not None:
-        out = 0
-        for x in v:
-            out = interp.binop(ast.Add(), out, x, node, frame)
-        return out
-    raise Unsupported("aggregate of a non-vector", node)
+        return SVec(interp.binop(ast.Mult(), v.elem, v.elem, node, frame), v.length)
+    if isinstance(v, (list, tuple)):
+        return SArr(interp.binop(ast.Mult(), x, x, node, frame) for x in v)
+    return interp.binop(ast.Mult(), v, v, node, frame)
 
 
 assumed("np.std", "np.std / np.var of a finite vector are finite and >= 0")
